@@ -480,6 +480,62 @@ func init() {
 		}
 		panic(skipMisuse{})
 	})
+	// a copy of a query value shares the lock bit of the original: once the original is closed, closing the copy is an
+	// unbalanced unlock (which panics) - but the copy must be finished afterwards in every build, whatever order Close
+	// does its work in
+	addMisuse("debugguard", "UnsafeQuery copy: Next after the original was closed and the copy's Close failed", func(d *Drv, op *Op, h, _ ecs.Entity) {
+		st := d.W.Stats()
+		for i := range st.Archetypes {
+			a := &st.Archetypes[i]
+			first := -1
+			for j := range a.Tables {
+				if a.Tables[j].Size > 0 {
+					first = a.Tables[j].Size
+					break
+				}
+			}
+			if first < 2 || len(a.ComponentIDs) == 0 {
+				continue
+			}
+			var ids []ecs.ID
+			for _, idx := range a.ComponentIDs {
+				for c := 0; c < u.N; c++ {
+					if d.ID[c].Index() == idx {
+						ids = append(ids, d.ID[c])
+					}
+				}
+			}
+			if len(ids) != len(a.ComponentIDs) {
+				continue
+			}
+			q := ecs.NewUnsafeFilter(d.W, ids...).Exclusive().Query()
+			q.Next()
+			c := q
+			q.Close()
+			func() {
+				defer func() { recover() }()
+				c.Close()
+			}()
+			if c.Next() {
+				sink = int64(c.Entity().ID())
+			}
+			return
+		}
+		panic(skipMisuse{})
+	})
+	addMisuse("debugguard", "Query0 copy: Next after the original was closed and the copy's Close failed", func(d *Drv, op *Op, h, _ ecs.Entity) {
+		q := ecs.NewFilter0(d.W).Query()
+		q.Next()
+		c := q
+		q.Close()
+		func() {
+			defer func() { recover() }()
+			c.Close()
+		}()
+		if c.Next() {
+			sink = int64(c.Entity().ID())
+		}
+	})
 	addMisuse("debugguard", "UnsafeQuery.Entity before Next", func(d *Drv, op *Op, h, _ ecs.Entity) {
 		q := ecs.NewUnsafeFilter(d.W).Query()
 		defer q.Close()
@@ -788,6 +844,38 @@ func init() {
 			return []ecs.Relation{ecs.RelID(d.ID[u.IP8], ecs.Entity{})}
 		})
 	}
+	// ---- a creation whose relation arguments do not fit a *new* archetype (a non-relation component named as relation,
+	// or a relation component the entity does not get) is rejected, and the world works afterwards: the archetype must not
+	// stay behind without its table (F34). Only sets of two plain components for which no archetype exists yet are used
+	// (for an existing non-relation archetype the library ignores relation arguments).
+	newArch := func(d *Drv, op *Op) []ecs.ID {
+		st := d.W.Stats()
+		for k := 0; k < u.N*u.N; k++ {
+			a, b := (op.N+k)%u.N, (op.N/7+3*k+1)%u.N
+			if a == b || u.Types[a].IsRel || u.Types[b].IsRel {
+				continue
+			}
+			exists := false
+			for i := range st.Archetypes {
+				ids := st.Archetypes[i].ComponentIDs
+				if len(ids) == 2 && ((ids[0] == d.ID[a].Index() && ids[1] == d.ID[b].Index()) || (ids[0] == d.ID[b].Index() && ids[1] == d.ID[a].Index())) {
+					exists = true
+				}
+			}
+			if !exists {
+				return []ecs.ID{d.ID[a], d.ID[b]}
+			}
+		}
+		panic(skipMisuse{})
+	}
+	addMisuse("newarchrel", "Unsafe.NewEntityRel(new archetype, non-relation component named as relation)", func(d *Drv, op *Op, _, _ ecs.Entity) {
+		ids := newArch(d, op)
+		d.U.NewEntityRel(ids, ecs.RelID(ids[0], ecs.Entity{}))
+	})
+	addMisuse("newarchrel", "Unsafe.NewEntityRel(new archetype, relation component that is not among the components)", func(d *Drv, op *Op, _, _ ecs.Entity) {
+		ids := newArch(d, op)
+		d.U.NewEntityRel(ids, ecs.RelID(d.ID[u.IR0], ecs.Entity{}))
+	})
 	// ---- filter objects guard their own state: a registered filter cannot be modified or registered again, an unregistered one
 	// cannot be unregistered (a modified mask under an unchanged cache entry would make cached and uncached results diverge, C05).
 	// The rejected call leaves the filter as it was: the cached-twin comparison goes on with the same object.
